@@ -1030,6 +1030,7 @@ def check_run(case, rep, carry, last):
     raised = None  # ["raise", i, kind, callback]
     who = ""
     resize_pending = False
+    first_draw = True  # the next completed draw is the first one since the display was started
     resize_batch = False  # the input being processed (last filter call, no draw since) holds "window resize"
     draws = 0
     drawn_state = None
@@ -1061,14 +1062,16 @@ def check_run(case, rep, carry, last):
         if kind == "prev-handler":
             continue
         if kind == "restarted":
-            draws = 0  # the display has been stopped and is started again: the next draw is a first draw
+            first_draw = True  # the display has been stopped and is started again: the next draw is a first draw
             continue
         if kind == "draw":
             vt.feed(bytes.fromhex(e[1]))
             draws += 1
             if raised is None:
                 resize_batch = False
-            if draws == 1:
+            if first_draw and not resize_pending:
+                # (draw_screen() returns without writing while a resize is pending: wait for a real draw)
+                first_draw = False
                 want = {"alt_screen": True, "bracketed_paste": case["bp"], "focus_events": case["focus"],
                         "mouse": True, "mouse_sgr": True}
                 snap = vt.mode_snapshot()
